@@ -56,6 +56,10 @@ func DateFromProto(proto *dtpb.Date) (Date, error) {
 	if err != nil {
 		return Date{}, err
 	}
+	// A date is a calendar day: keep the day the element shows in its own time
+	// zone, on the UTC midnight that ParseDate uses, so that a date element and
+	// a Date literal of the same day are equal whatever zone the element carries.
+	t = time.Date(t.Year(), t.Month(), t.Day(), 0, 0, 0, 0, time.UTC)
 	var l layout
 	switch proto.Precision {
 	case dtpb.Date_DAY:
